@@ -191,7 +191,8 @@ def run_case(c):
             d.hist_bins(None, None, 'log')
         overrides = [{}]
         if scale == 'logicle':
-            overrides = [{}, {'T': 5e4}, {'M': 5.0}, {'W': 0.8}, {'T': 1e5, 'M': 5.5, 'W': 0.3}, {'W': 0.0}]
+            overrides = [{}, {'T': 5e4}, {'M': 5.0}, {'W': 0.8}, {'T': 1e5, 'M': 5.5, 'W': 0.3}, {'W': 0.0}, {'M': 3.0}, {'M': 4.0, 'W': 0.25},
+                         {'T': 3e5, 'M': 2.0, 'W': 0.0}, {'M': 4.5}, {'M': 9.0, 'W': 2.0}]
         for j in range(3):
             r = rs[j]
             for nb in NBINS:
@@ -206,8 +207,9 @@ def run_case(c):
                         continue
                     lim = lims[j]
                     vals = allvals[j]
-                    if scale == 'logicle' and 'T' in kw and kw['T'] < lim[1]:
-                        # an explicit T below the range deliberately narrows the display; only form and grid are checked
+                    if scale == 'logicle' and (('T' in kw and kw['T'] < lim[1]) or ('M' in kw and kw['M'] < 4.5)):
+                        # an explicit T below the range deliberately narrows the display, and with an explicit M below 4.5 decades the
+                        # published equation itself puts display value M slightly below T; only form and grid are checked
                         e_ = np.asarray(e, dtype=float)
                         if e_.shape != (n + 1,) or np.any(np.diff(e_) <= 0) or not np.all(np.isfinite(e_)):
                             res.violation(sig + ':not-increasing', '%s: edges not increasing' % what, one)
